@@ -121,7 +121,12 @@ func (c *Ctx) ackAcceptsTypes() {
 				c.R.Ok(ruleT2, "Ack:handler("+h.Name()+"):fails-only-on-encode", c.P.Pos(h.Pos()), "returns nil or the error of re-encoding the ack")
 			}
 		}
-		if p := reach(g, entry, nil, badRet, Assume{atom: true}); p != nil {
+		// a message that has a type is a message: an argument check `msg == nil` in front does not concern it
+		typed := Assume{atom: true}
+		if len(fn.Params) > 1 {
+			typed["nonnil:"+ir.RootName(fn.Params[1])] = true
+		}
+		if p := reach(g, entry, nil, badRet, typed); p != nil {
 			c.R.Bad(ruleT2, key, c.P.InstrPos(p[len(p)-1].Instr), "Ack can return an error for a "+typeNames[k]+" although nothing is wrong with the packet (not an Encode failure): the handler then skips its reply / completion", c.witness(g, p)...)
 		} else {
 			c.R.Ok(ruleT2, key, c.P.Pos(fn.Pos()), "for "+typeNames[k]+" Ack returns nil or the error of re-encoding the ack")
@@ -509,14 +514,16 @@ func onlySkipsByCallbackGuards(p []paths.Node) bool {
 			idx = 0
 		}
 		a, _ := edgeAtom(iff, idx)
-		if strings.HasPrefix(a, "nonnil:") && strings.Contains(a, "OnComplete") || a == "type:OnCompleteFunc" || isNilTestOfFunc(iff) {
+		if strings.HasPrefix(a, "nonnil:") && strings.Contains(a, "OnComplete") || a == "type:OnCompleteFunc" || isNilTestOfFunc(iff, n.F) {
 			skipped = true
 		}
 	}
 	return skipped
 }
 
-func isNilTestOfFunc(iff *ssa.If) bool {
+// isNilTestOfFunc: the test compares the callback with nil - as a value of the callback type, or as the entry's
+// OnComplete member (also when a helper was handed that member: parameters are resolved through the frame f).
+func isNilTestOfFunc(iff *ssa.If, f *paths.Frame) bool {
 	b, ok := iff.Cond.(*ssa.BinOp)
 	if !ok {
 		return false
@@ -529,6 +536,11 @@ func isNilTestOfFunc(iff *ssa.If) bool {
 			p := ir.PathOf(s)
 			if len(p.Fields) > 0 && p.Fields[len(p.Fields)-1] == "OnComplete" {
 				return true
+			}
+			if f != nil {
+				if p := ir.PathOf(frameValue(f, s)); len(p.Fields) > 0 && p.Fields[len(p.Fields)-1] == "OnComplete" {
+					return true
+				}
 			}
 		}
 	}
